@@ -76,6 +76,9 @@ def shrink(ctx, bins, payload, still_bad, budget=60):
     return dict(payload, events=evs)
 
 
+PERSIST_KINDS = {"C01": ["retention_running"], "C12": ["retention_running"], "C06": ["retention_queue"], "C05": ["removed_pipeline_admission"]}
+
+
 def main():
     prop = sys.argv[1]
     ctx = Ctx(prop, sys.argv[2:])
@@ -134,6 +137,14 @@ def main():
             rc, o = sh([rb["realrun"], "-mode", "fail", "-seed", str(rp["fail_case"]["seed"]), "-n", str(rp["fail_case"]["n"]), "-out", outp], cwd=ctx.run, timeout=600)
             recs = [json.loads(l) for l in open(outp)] if rc == 0 else []
             if [r for r in recs if r.get("kind") == "failcase" and not r.get("ok") and r.get("round") == rp["fail_case"]["round"] and r.get("graph") == rp["fail_case"]["graph"]]:
+                violation(ctx, rp)
+            finish(ctx)
+        if "retreload_round" in rp:
+            rb = build_harness(ctx, ["realrun"])
+            outp = os.path.join(ctx.run, "retreload.jsonl")
+            rc, o = sh([rb["realrun"], "-mode", "retreload", "-out", outp], cwd=ctx.run, timeout=300)
+            recs = [json.loads(l) for l in open(outp)] if rc == 0 else []
+            if [r for r in recs if r.get("retention_what")]:
                 violation(ctx, rp)
             finish(ctx)
         if "reload_walk" in rp:
@@ -278,8 +289,9 @@ def main():
         ctx.coverage["reload_walk_limit_probes"] = [[r["limit"], r["max_executing"]] for r in steps]
         for r in [r for r in steps if r.get("limit_what")][:2]:
             violation(ctx, {"what": "real application, definitions file rewritten (watch mode): " + r["limit_what"], "reload_walk": r["walk"][:r["step"] + 2], "step": r})
-    if prop in ("C01", "C12"):
-        # in real time: a job that runs longer than its pipeline's retention_period survives a save, stays reported and keeps its slot
+    if prop in PERSIST_KINDS:
+        # explicit-save scenarios on a real runner with a real store (persistrun): retention against a running job (C01, C12), against a
+        # running job with a queue behind it (C06), and admission after a waiting job was purged with its pipeline (C05)
         pb = build_harness(ctx, ["persistrun"])
         outp = os.path.join(ctx.run, "persist.jsonl")
         prec = []
@@ -287,12 +299,29 @@ def main():
             rc, o = sh([pb["persistrun"], "-out", outp], cwd=ctx.run, timeout=120)
             if rc == 0:
                 prec = [json.loads(l) for l in open(outp)]
-        rr = [r for r in prec if r.get("kind") == "retention_running"]
-        if not rr:
-            violation(ctx, {"what": "persistrun did not complete", "broken": "the real-time retention scenario cannot run"}, found_input=False)
-        ctx.coverage["retention_vs_running_job"] = [{k: r.get(k) for k in ("ok", "max_executing", "what")} for r in rr]
+        rr = [r for r in prec if r.get("kind") in PERSIST_KINDS[prop]]
+        if len(rr) != len(PERSIST_KINDS[prop]):
+            violation(ctx, {"what": "persistrun did not complete", "broken": "the explicit-save scenarios %s cannot run" % PERSIST_KINDS[prop]}, found_input=False)
+        ctx.coverage["explicit_save_scenarios"] = [{k: v for k, v in r.items() if k != "events"} for r in rr]
         for r in [r for r in rr if not r["ok"]]:
-            violation(ctx, {"what": "real runner, retention_period shorter than a running job, explicit save: " + str(r.get("what")), "persist_scenario": r["scenario"]})
+            violation(ctx, {"what": "real runner and store, scenario %s: %s" % (r["scenario"], r.get("what")), "persist_scenario": r["scenario"]})
+    if prop == "C12":
+        # the retention settings in force are those of the definitions in force: the real application in watch mode, the definitions file
+        # goes plain -> retention_count 1 -> plain and the other way round; judged after the application's own persist loop has saved
+        rb = build_harness(ctx, ["realrun"])
+        outp = os.path.join(ctx.run, "retreload.jsonl")
+        recs = []
+        if rb:
+            rc, o = sh([rb["realrun"], "-mode", "retreload", "-out", outp], cwd=ctx.run, timeout=300)
+            if rc == 0:
+                recs = [json.loads(l) for l in open(outp)]
+        rounds = [r for r in recs if r.get("kind") == "retreload"]
+        if len(rounds) < 2:
+            violation(ctx, {"what": "realrun -mode retreload did not complete: %s" % [r.get("what") for r in recs if r.get("kind") == "error"][:2],
+                            "broken": "the retention-across-reload rounds on the real application (C12) cannot run"}, found_input=False)
+        ctx.coverage["retention_across_reload_rounds"] = [{k: r.get(k) for k in ("walk", "first_change_seen", "second_change_seen", "finished_before", "finished_after", "ok")} for r in rounds]
+        for r in [r for r in rounds if r.get("retention_what")]:
+            violation(ctx, {"what": "real application (watch mode, own persist loop): " + r["retention_what"], "retreload_round": r["round"], "round": r})
     if prop == "C04":
         # an acknowledged cancel takes effect on real processes too: generated process trees under the real application; the canceled job is
         # reported finished within the kill timeout and nothing of it survives
@@ -369,6 +398,7 @@ def main():
                             "broken": "the reload walk over the real application (C16) cannot run"}, found_input=False)
         ctx.coverage["reload_walk_steps"] = len(steps)
         ctx.coverage["reload_walk_returns_to_earlier_version"] = sum(1 for r in steps if r["to"] in r["walk"][:r["step"] + 1])
+        ctx.coverage["reload_walk_empty_env_rename_steps"] = sum(1 for r in steps if {r["from"], r["to"]} == {"d", "e"})
         ctx.coverage["reload_walk_max_tries"] = max([r["tries"] for r in steps] or [0])
         for r in [r for r in steps if not r["ok"]][:2]:
             violation(ctx, {"what": "real application, definitions file rewritten (watch mode): " + r["what"], "reload_walk": r["walk"][:r["step"] + 2], "step": r})
